@@ -1029,6 +1029,51 @@ func (env *SpecEnv) call(c SCall) TVal {
 			return TVal{T: Or(fc.heapGet(env.Cur, heldVar(name)), fc.heapGet(env.Cur, rheldVar(name))), Ty: tBool}
 		}
 		return TVal{T: fc.heapGet(env.Cur, HeapVar{"$held." + name, SBool, HGhost}), Ty: tBool}
+	case "addr":
+		// addr(x.F): the address of the struct-typed field F of *x, as an identity
+		argN(1)
+		sel, ok := c.Args[0].(SSel)
+		if !ok {
+			env.fail("addr needs an argument of the form x.Field")
+		}
+		base := env.eval(sel.X)
+		if base.Ty == nil {
+			env.fail("addr: untyped base")
+		}
+		pt, ok := base.Ty.Underlying().(*types.Pointer)
+		if !ok {
+			env.fail("addr: %s is not a pointer", base.Ty)
+		}
+		st, ok := pt.Elem().Underlying().(*types.Struct)
+		if !ok {
+			env.fail("addr: %s is not a pointer to a struct", base.Ty)
+		}
+		idx, err := fieldIndex(st, sel.Name)
+		if err != nil {
+			env.fail("addr: %v", err)
+		}
+		return TVal{T: fc.interiorTerm(pt.Elem(), idx, base.T), Ty: types.NewPointer(st.Field(idx).Type())}
+	case "fnIs":
+		// fnIs(h, "full name"): the function value h is that function (or a method value of it)
+		argN(2)
+		v := env.eval(c.Args[0])
+		lit, ok := c.Args[1].(SStrLit)
+		if !ok {
+			env.fail("fnIs needs a function name literal")
+		}
+		return TVal{T: Eq(fc.fnCodeOf(v.T), IntLit(fnCode(lit.Val))), Ty: tBool}
+	case "recvOf":
+		// recvOf(h, "*T"): the receiver bound in the method value h
+		argN(2)
+		v := env.eval(c.Args[0])
+		lit, ok := c.Args[1].(SStrLit)
+		if !ok {
+			env.fail("recvOf needs a type name literal")
+		}
+		toks, _ := lexSpec(lit.Val)
+		tp := &sparser{toks: toks, src: lit.Val}
+		t, _ := env.resolveType(tp.typeExpr())
+		return TVal{T: fc.fnRecvOf(v.T), Ty: t}
 	case "asIface":
 		// asIface(x, "I"): the value x converted to interface type I
 		argN(2)
